@@ -37,6 +37,10 @@ func genC03(r *core.Rng, id int) *c03Case {
 		}
 	}
 	defs := d.Defs()
+	if id%4 == 2 {
+		// `__typename` selected explicitly but late (after an inline fragment / a spread)
+		defs = append(defs, gen.LateTypenameDefs(s, "LT")...)
+	}
 	// @genqlient directives in comments must never reach the wire
 	for _, df := range defs {
 		if r.Chance(0.3) {
